@@ -124,7 +124,7 @@ func c01Systematic() []c01Case {
 		}
 		// every ordered pair of operators, both nestings, minimal and redundant parentheses
 		ops := append([]string{}, ref.BinaryOps...)
-		ops = append(ops, "neg", "not", "tern")
+		ops = append(ops, "neg", "not", "tern", "ternelse")
 		build := func(op string, l, r ref.Expr) ref.Expr {
 			switch op {
 			case "neg":
@@ -133,6 +133,8 @@ func c01Systematic() []c01Case {
 				return &ref.Unary{Op: "not", X: l}
 			case "tern":
 				return &ref.Tern{C: l, A: r, B: &ref.Lit{V: ref.Int(11)}}
+			case "ternelse":
+				return &ref.Tern{C: l, A: &ref.Lit{V: ref.Int(12)}, B: r}
 			}
 			return &ref.Binary{Op: op, L: l, R: r}
 		}
